@@ -58,14 +58,21 @@ def run_quiet(prop, repo):
 
 def apply_variant(scratch, v):
     p = os.path.join(scratch, v["file"])
-    with open(p, encoding="utf-8") as f:
+    with open(p, encoding="utf-8", newline="") as f:
         s = f.read()
-    n = s.count(v["old"])
+    crlf = "\r\n" in s
+    if crlf:
+        s_cmp = s.replace("\r\n", "\n")
+    else:
+        s_cmp = s
+    n = s_cmp.count(v["old"].replace("\r\n", "\n"))
     want = v.get("count", 1)
     if n < 1 or (want != "all" and n != want):
         return None, s
-    new = s.replace(v["old"], v["new"])
-    with open(p, "w", encoding="utf-8") as f:
+    new = s_cmp.replace(v["old"].replace("\r\n", "\n"), v["new"].replace("\r\n", "\n"))
+    if crlf:
+        new = new.replace("\n", "\r\n")
+    with open(p, "w", encoding="utf-8", newline="") as f:
         f.write(new)
     return p, s
 
@@ -78,7 +85,10 @@ def _worker(args):
         # the clang AST cache is keyed by content digest, so scratch copies share it safely
         for v in variants:
             if v.get("patch"):
-                r = subprocess.run(["patch", "-p1", "-s", "-f", "--no-backup-if-mismatch", "-i", v["patch"]], cwd=scratch, capture_output=True, text=True)
+                r = subprocess.run(["git", "apply", "--whitespace=nowarn", v["patch"]], cwd=scratch, capture_output=True, text=True, env=dict(os.environ, GIT_DIR="/nonexistent", GIT_CEILING_DIRECTORIES=scratch))
+                if r.returncode != 0:
+                    r = subprocess.run(["patch", "-p1", "-s", "-f", "--no-backup-if-mismatch", "-i", v["patch"]], cwd=scratch, capture_output=True, text=True)
+                    v = dict(v, _by_patch=True)
                 if r.returncode != 0:
                     subprocess.run(["patch", "-p1", "-R", "-s", "-f", "--no-backup-if-mismatch", "-i", v["patch"]], cwd=scratch, capture_output=True)
                     shutil.rmtree(scratch, ignore_errors=True)
@@ -88,7 +98,10 @@ def _worker(args):
                 try:
                     rc, out = run_quiet(v["prop"], scratch)
                 finally:
-                    subprocess.run(["patch", "-p1", "-R", "-s", "-f", "--no-backup-if-mismatch", "-i", v["patch"]], cwd=scratch, capture_output=True)
+                    if v.get("_by_patch"):
+                        subprocess.run(["patch", "-p1", "-R", "-s", "-f", "--no-backup-if-mismatch", "-i", v["patch"]], cwd=scratch, capture_output=True)
+                    else:
+                        subprocess.run(["git", "apply", "-R", "--whitespace=nowarn", v["patch"]], cwd=scratch, capture_output=True, env=dict(os.environ, GIT_DIR="/nonexistent", GIT_CEILING_DIRECTORIES=scratch))
                 ok = rc == 1
                 res.append((v["name"], "OK" if ok else "FAIL", "fires" if ok else "seeded change no longer detected; rc=%d %s" % (rc, _viol(out))))
                 continue
@@ -99,7 +112,7 @@ def _worker(args):
             try:
                 rc, out = run_quiet(v["prop"], scratch)
             finally:
-                with open(p, "w", encoding="utf-8") as f:
+                with open(p, "w", encoding="utf-8", newline="") as f:
                     f.write(orig)
             exp = v.get("expect")
             if exp is None:
@@ -197,6 +210,61 @@ def rename_variants(repo):
     return res
 
 
+def py_rename_variants(repo, props):
+    """Twins made on the fly: the locals of every Python function a property's rules look at are renamed (x -> x_rn) through the AST."""
+    import ast
+    import importlib
+    from . import pyfront
+    res = []
+    for P in props:
+        try:
+            mod = importlib.import_module("sa.rules." + P.lower())
+            ctx = core.Ctx(P, repo, "quick")
+            with contextlib.redirect_stdout(io.StringIO()):
+                try:
+                    mod.check(ctx)
+                except Exception:
+                    pass
+        except Exception:
+            continue
+        funcs = sorted({(o.file, o.func) for o in ctx.obs if o.file.endswith(".py")} | {tuple(f.split(":", 1)) for f in ctx.analysed_functions if f.split(":")[0].endswith(".py")})
+        for rel, qual in funcs:
+            path = os.path.join(repo, rel)
+            if not os.path.exists(path):
+                continue
+            src_ = open(path, encoding="utf-8").read()
+            try:
+                tree = ast.parse(src_)
+            except SyntaxError:
+                continue
+            node = tree
+            for part in qual.split("."):
+                if part in ("getter", "setter") or "#" in part:
+                    continue
+                found = None
+                for n in ast.walk(node):
+                    if n is not node and isinstance(n, (ast.FunctionDef, ast.ClassDef)) and n.name == part:
+                        found = n
+                        break
+                if found is None:
+                    node = None
+                    break
+                node = found
+            if not isinstance(node, ast.FunctionDef):
+                continue
+            names = pyfront.local_names(node)
+            if not names:
+                continue
+            m = {n: n + "_rn" for n in names}
+            for n in ast.walk(node):
+                if isinstance(n, ast.Name) and n.id in m:
+                    n.id = m[n.id]
+                elif isinstance(n, ast.ExceptHandler) and n.name in m:
+                    n.name = m[n.name]
+            res.append(dict(prop=P, name="%s on renamed locals of %s:%s" % (P, rel.split("/")[-1], qual), file=rel, old=src_, new=ast.unparse(tree) + "\n", expect=None, where=None, count=1))
+    return res
+
+
 def claimed_properties():
     import json
     try:
@@ -215,6 +283,7 @@ def run_for(prop, jobs=None, repo=None):
     claimed = set(claimed_properties())
     vs += [v for v in rename_variants(repo) if prop in ("ALL", v["prop"]) and (v["prop"] in claimed or not claimed)]
     props = claimed_properties() if prop == "ALL" else [prop]
+    vs += py_rename_variants(repo, props)
     for q in props:
         for v in twins:
             if v["prop"] != q:
